@@ -284,6 +284,7 @@ type worker struct {
 	cs        *Case
 	probe     []string
 	probed    bool
+	refused   []string
 	probeHung bool
 	dirtyP    *app.RequestContext
 	probeP    *app.RequestContext
@@ -300,6 +301,13 @@ func (w *worker) server(streaming bool) *srvh.Server {
 		o.TraceLevel = stats.LevelDetailed
 	}}})
 	s.E.Use(recovery.Recovery())
+	// engine-level middleware also runs for requests the engine itself refuses (no Host header: 400 before routing); what
+	// it sees through the context's installable functions is recorded for the "refused" placement
+	s.E.Use(func(c context.Context, ctx *app.RequestContext) {
+		if len(ctx.Request.Header.Host()) == 0 {
+			w.refused = []string{"mw.ClientIP=" + ctx.ClientIP(), fmt.Sprintf("mw.FormValue(a)=%q", ctx.FormValue("a")), fmt.Sprintf("mw.HTMLRender=%T", ctx.HTMLRender)}
+		}
+	})
 	s.E.POST("/dirty/:id", func(c context.Context, ctx *app.RequestContext) {
 		w.dirtyP = ctx
 		cs := w.cs
@@ -424,6 +432,22 @@ func (w *worker) exec(c *mc.Ctx, cs Case) (status string) {
 	}
 	s := w.server(cs.Streaming)
 	w.cs, w.probe, w.probed, w.dirtyP, w.probeP, w.probeHung = &cs, nil, false, nil, nil, false
+	if cs.Placement == "refused" {
+		if refusedRef == nil {
+			refusedRef = refusedReference()
+		}
+		w.refused = nil
+		s.Run([][]byte{[]byte(dirtyReq + refusedProbe)}, netsim.EndEOF, nil)
+		w.cs = nil
+		if w.refused == nil {
+			return "probe-not-reached"
+		}
+		if d := diff(refusedRef, w.refused); len(d) > 0 {
+			c.Violate(fmt.Sprintf("refused|%s|field=%s", strings.Join(cs.Ops, "+"), fieldOf(d[0])), fmt.Sprintf("after history %v the engine-level middleware of a request that the engine refuses (no Host header) on the same keep-alive connection observes state that a fresh context does not show:\n  %s", cs.Ops, strings.Join(d, "\n  ")), cs)
+			return "differs"
+		}
+		return "same"
+	}
 	switch cs.Placement {
 	case "keepalive":
 		s.Run([][]byte{[]byte(dirtyReq + probeReq)}, netsim.EndEOF, nil)
@@ -658,6 +682,9 @@ func run(c *mc.Ctx) {
 			}
 		}
 	}
+	for _, op := range ops {
+		cases = append(cases, Case{Ops: []string{op}, Outcome: "return", Placement: "refused"})
+	}
 	red := reducedOps(ops)
 	if c.Thorough() {
 		// every third operation of the full alphabet joins the pair alphabet
@@ -743,6 +770,18 @@ func replay(c *mc.Ctx, raw json.RawMessage) {
 // Exported for the schedule part (sched/c09s), which serves the same dirty / probe requests on several
 // connections of one engine under the controlled scheduler.
 const DirtyReq, DirtyReqClose, ProbeReq = dirtyReq, dirtyReqClose, probeReq
+
+// refusedProbe is a request the engine answers 400 itself (HTTP/1.1 without Host); engine-level middleware still runs for it.
+const refusedProbe = "POST /probe/p?x=1 HTTP/1.1\r\nX-P: 1\r\nContent-Type: application/x-www-form-urlencoded\r\nContent-Length: 3\r\n\r\na=1"
+
+var refusedRef []string
+
+func refusedReference() []string {
+	w := newWorker()
+	s := w.server(false)
+	s.Run([][]byte{[]byte(refusedProbe)}, netsim.EndEOF, nil)
+	return w.refused
+}
 
 func Dump(ctx *app.RequestContext) []string      { return dump(ctx) }
 func ApplyOp(ctx *app.RequestContext, op string) { applyOp(ctx, op) }
